@@ -25,9 +25,9 @@ statement `runTests_report`, from which T1 (`runTests_one_result`), T2 (`runTest
 are read off; `accepts_sound` is T3.  Totality (`runTests_total`: the lossy decoder never runs out of
 fuel, `render_output` never panics) turns the master statement into the closed form `runTests_eq`.
 Lifting: `testDocumentBytes_report_iff` (`DocTests`), `testDocumentBytes_parseError_iff`.
-Single-script path: `runScript_report` (T1, all-or-none skip) and, through the divider round trip
-`Divider.iterLines_joinStream`, `runScript_ok_sound` (T2 under the guards "no command leaves the
-shell" and "keep_crlf true").  The examples at the end are closed documents evaluated by the kernel
+Single-script path: `runScript_report` (T1, all-or-none skip); T2 and T4 in terms of the runs, for
+all documents and runs, are in `Lemmas/TestRunScript.lean` (`runScript_ok_sound_full`,
+`runScript_skip`), which uses the pieces at the end of this file.  The examples at the end are closed documents evaluated by the kernel
 (`decide +kernel`: no axiom beyond the three standard ones, no `native_decide`).
 -/
 namespace Scrut.Exec
@@ -1407,13 +1407,12 @@ theorem testDocumentCompatBytes_one_result {bytes : Bytes} {runs : List SRan}
   obtain ⟨r1, r2, r3, r4⟩ := runScript_one_result h5
   exact ⟨text, p, h1, h2, by rw [r1, h4], r2, r3, r4⟩
 
-/-! ## the single-script path: no false success for a script that runs to its end
+/-! ## the single-script path: pieces for `Lemmas/TestRunScript.lean`
 
 Through the divider protocol: what the one script writes (`scriptStream`) is cut at the divider
 lines (`Divider.iterate`) into exactly the bytes each test's own command wrote
-(`Divider.iterLines_joinStream`).  Guards: no command leaves the shell; the compiled `keep_crlf` is
-`true` (the Cram default, so that `render_output` of the WHOLE stream is the identity); fewer than
-2^64 test cases. -/
+(`Divider.iterLines_joinStream`); here for a script that runs to its end and at most 2^64 test
+cases, the general case is `TestRunScript.iterLines_scriptStream`. -/
 
 theorem salt_colon : Divider.COLON ∉ modelSalt := by decide
 theorem salt_lf : Divider.LF ∉ modelSalt := by decide
@@ -1430,16 +1429,6 @@ theorem scriptStream_noleave (pay : SRan → Bytes) (code : SRan → Nat) :
     have hr : r.leaves = false := h r (by simp)
     simp only [scriptStream, hr, Bool.false_eq_true, if_false, List.map_cons, Divider.joinStream]
     rw [ih (i + 1) (fun r' hr' => h r' (by simp [hr']))]
-
-theorem scriptExit_noleave : ∀ (runs : List SRan), (∀ r ∈ runs, r.leaves = false) → scriptExit runs = 0 := by
-  intro runs
-  induction runs with
-  | nil => intro _; rfl
-  | cons r rs ih =>
-    intro h
-    have hr : r.leaves = false := h r (by simp)
-    simp only [scriptExit, hr, Bool.false_eq_true, if_false]
-    exact ih (fun r' hr' => h r' (by simp [hr']))
 
 /-- the round trip of the divider protocol on what the script writes to one stream -/
 theorem iterate_scriptStream (limit : Option Nat) (pay : SRan → Bytes) (code : SRan → Nat)
@@ -1487,96 +1476,6 @@ theorem codeOk_spec {r : SRan} (h : codeOk r = true) :
   · omega
   · omega
 
-/-- **the single-script executor on a script that runs to its end with `keep_crlf: true`** (the Cram
-default): the outputs it hands to validation are, test by test, the bytes the test's own command
-wrote and its own exit code -/
-theorem execScriptBytes_plain {tests : List Test} {tcs : List Exec.TC} {runs : List SRan}
-    {r : Exec.ExecResult} {cfg : Compiled} (hl : tcs.length = tests.length)
-    (hcfg : compileTestcase tests = some cfg) (hkeep : cfg.keepCrlf = some true)
-    (hleave : ∀ r ∈ runs, r.leaves = false) (hcode : ∀ r ∈ runs, codeOk r = true)
-    (hsalt : ∀ r ∈ runs, saltFree r = true) (hlen : runs.length ≤ 2 ^ 64)
-    (h : execScriptBytes tests tcs runs = .ok r) :
-    (∃ i, r = .skipped i) ∨
-    ∃ xs, r = .ok xs ∧ runs.length = tests.length ∧
-      zipScriptOuts tests (runs.map fun r => ⟨payOut cfg r, payErr cfg r, r.ran.code⟩) = some xs := by
-  have hren : ∀ raw, Crlf.renderOutput cfg.keepCrlf none (fun b => some b) raw = some raw := by
-    intro raw
-    rw [hkeep]
-    exact Crlf.renderOutput_keep none _ raw (by simp)
-  have hout : Divider.iterate modelSalt none
-      (scriptStream (payOut cfg) (fun r => r.ran.code.toNat) 0 runs) =
-        .ok (runs.map fun r => (payOut cfg r, r.ran.code)) := by
-    rw [iterate_scriptStream none (payOut cfg) (fun r => r.ran.code.toNat) runs hleave ?_ hlen
-      (by intro n hn; cases hn)]
-    · congr 1
-      apply List.map_congr_left
-      intro r hr
-      rw [(codeOk_spec (hcode r hr)).2]
-    · intro r hr
-      refine ⟨?_, (codeOk_spec (hcode r hr)).1⟩
-      have hs := hsalt r hr
-      simp only [saltFree, Bool.and_eq_true] at hs
-      unfold payOut
-      split
-      · exact hs.2
-      · exact hs.1.1
-  unfold execScriptBytes at h
-  simp only [hcfg, hren] at h
-  have hraw : (if decide (cfg.outputStream = some Yaml.Stream.combined) = true then
-        scriptStream (fun r => r.ran.stdout ++ r.ran.stderr) (fun r => r.ran.code.toNat) 0 runs
-      else scriptStream (fun r => r.ran.stdout) (fun r => r.ran.code.toNat) 0 runs) =
-      scriptStream (payOut cfg) (fun r => r.ran.code.toNat) 0 runs := by
-    by_cases hc : cfg.outputStream = some .combined
-    · have hp : payOut cfg = fun r => r.ran.stdout ++ r.ran.stderr := by funext r; simp [payOut, hc]
-      simp [hc, hp]
-    · have hp : payOut cfg = fun r => r.ran.stdout := by funext r; simp [payOut, hc]
-      simp [hc, hp]
-  rw [hraw, hout] at h
-  simp only [List.length_map] at h
-  split at h
-  · cases h
-  · rename_i z hz
-    rcases Exec.execScript_code_cases _ _ _ _ hz with ⟨_, hcount⟩ | ⟨i, hi⟩
-    · have hrl : runs.length = tests.length := by simpa [hl] using hcount
-      have herr : (if decide (cfg.outputStream = some Yaml.Stream.combined) = true then
-            (Except.ok [] : Except Divider.IterErr (List (Divider.Bytes × Int)))
-          else Divider.iterate modelSalt (some runs.length)
-            (if decide (cfg.outputStream = some Yaml.Stream.combined) = true then []
-             else scriptStream (fun r => r.ran.stderr) (fun _ => 0) 0 runs)) =
-          .ok (if cfg.outputStream = some .combined then [] else runs.map fun r => (r.ran.stderr, (0 : Int))) := by
-        by_cases hc : cfg.outputStream = some .combined
-        · simp [hc]
-        · simp only [hc, decide_false, Bool.false_eq_true, if_false]
-          rw [iterate_scriptStream (some runs.length) (fun r => r.ran.stderr) (fun _ => 0) runs hleave ?_ hlen
-            (by intro n hn; cases hn; exact Nat.le_refl _)]
-          · simp
-          · intro r hr
-            have hs := hsalt r hr
-            simp only [saltFree, Bool.and_eq_true] at hs
-            exact ⟨hs.1.2, by decide⟩
-      rw [herr] at h
-      simp only at h
-      have hz' : Divider.zipErr (runs.map fun r => (payOut cfg r, r.ran.code))
-          (if cfg.outputStream = some .combined then [] else runs.map fun r => (r.ran.stderr, (0 : Int))) =
-          runs.map fun r => ⟨payOut cfg r, payErr cfg r, r.ran.code⟩ := by
-        by_cases hc : cfg.outputStream = some .combined
-        · simp only [hc, if_true, payErr]
-          exact zipErr_maps_nil _ _ runs
-        · simp only [hc, if_false, payErr]
-          exact zipErr_maps _ _ _ 0 runs
-      rw [hz'] at h
-      split at h
-      · rename_i xs hxs
-        cases h
-        exact Or.inr ⟨xs, rfl, hrl, hxs⟩
-      · cases h
-    · cases hi
-  · rename_i r' hnok hr'
-    cases h
-    rcases Exec.execScript_code_cases _ _ _ _ hr' with ⟨hok, _⟩ | ⟨i, hi⟩
-    · exact absurd hok (fun he => hnok _ he)
-    · exact Or.inl ⟨i, hi⟩
-
 /-- the bytes `validate` compares for test `t` in the single-script executor: what the test's own
 command wrote to the stream its `output_stream` selects (`cfg` = the compiled configuration of
 the one script) -/
@@ -1608,111 +1507,10 @@ theorem zipScriptOuts_index : ∀ (tests : List Test) (zs : List Divider.Out) (x
           | zero => simp at ht hz; subst ht hz; exact ⟨x0, by simp, hx⟩
           | succ i => simpa using ih zs xs' hxs i t z (by simpa using ht) (by simpa using hz)
 
-/-- **T2 for `runScript`** (no false success), for a script that runs to its end (no command
-leaves the shell) under `keep_crlf: true` (the Cram default): a test reported `success` ended with
-the expected exit code, and the bytes its OWN command wrote to the selected stream are accepted by
-its expectations -/
-theorem runScript_ok_sound {tests : List Test} {runs : List SRan} {outcomes : List Exec.Outcome}
-    {status i : Nat} (h : runScript tests runs = .report outcomes status)
-    (hleave : ∀ r ∈ runs.take tests.length, r.leaves = false)
-    (hkeep : ∀ cfg, compileTestcase tests = some cfg → cfg.keepCrlf = some true)
-    (hlen : tests.length ≤ 2 ^ 64) (hi : (i, Exec.Verdict.ok) ∈ outcomes) :
-    ∃ (t : Test) (r : SRan) (cfg : Compiled), tests[i]? = some t ∧ runs[i]? = some r ∧
-      compileTestcase tests = some cfg ∧ r.ran.code = t.expected.getD 0 ∧
-      accepts t.exps (scriptSelected cfg t r) = some true := by
-  unfold runScript at h
-  split at h
-  · cases h
-  · rename_i hrl
-    simp only at h
-    split at h
-    · cases h
-    · rename_i hguard
-      simp only [Bool.not_eq_true, Bool.not_eq_false', Bool.and_eq_true, List.all_eq_true] at hguard
-      split at h
-      · cases h
-      · rename_i tcs htc
-        obtain ⟨hl, htcs⟩ := mapM_option_spec _ tests tcs htc
-        split at h
-        · cases h
-        · cases h
-        · cases h
-        · rename_i r hr
-          simp only [Result.report.injEq] at h
-          obtain ⟨h1, _⟩ := h
-          cases hcfg : compileTestcase tests with
-          | none => unfold execScriptBytes at hr; simp [hcfg] at hr
-          | some cfg =>
-            have htake : (runs.take tests.length).length = tests.length := by
-              rw [List.length_take]; omega
-            rcases execScriptBytes_plain hl hcfg (hkeep cfg hcfg) hleave hguard.1 hguard.2
-                (by omega) hr with ⟨k, hk⟩ | ⟨xs, hxs, _, hzip⟩
-            · rw [← h1, hk, Exec.runDocument_skipped] at hi
-              obtain ⟨j, _, he⟩ := List.mem_map.1 hi
-              cases he
-            · rw [← h1, hxs, Exec.runDocument_ok] at hi
-              obtain ⟨tc, x, htci, hxi, _, hv⟩ := (Exec.mem_judge_zero tcs xs i .ok).1 hi
-              have hil : i < tests.length := by
-                have := (List.getElem?_eq_some_iff.1 htci).1
-                omega
-              have hti : tests[i]? = some tests[i] := List.getElem?_eq_getElem hil
-              have hri : runs[i]? = some (runs[i]'(by omega)) := List.getElem?_eq_getElem (by omega)
-              have hzi : ((runs.take tests.length).map fun r =>
-                  (⟨payOut cfg r, payErr cfg r, r.ran.code⟩ : Divider.Out))[i]? =
-                  some ⟨payOut cfg (runs[i]'(by omega)), payErr cfg (runs[i]'(by omega)),
-                    (runs[i]'(by omega)).ran.code⟩ := by
-                rw [List.getElem?_map, List.getElem?_take_of_lt hil, hri]
-                rfl
-              obtain ⟨x', hx', hso⟩ := zipScriptOuts_index tests _ xs hzip i _ _ hti hzi
-              rw [hxi] at hx'
-              cases hx'
-              obtain ⟨tc', htc', hmap⟩ := htcs i _ hti
-              rw [htci] at htc'
-              cases htc'
-              cases ha : accepts tests[i].exps [] with
-              | none => simp [ha] at hmap
-              | some a =>
-                simp only [ha, Option.map_some, Option.some.injEq] at hmap
-                subst hmap
-                unfold scriptOut at hso
-                simp only at hso
-                cases hao : accepts tests[i].exps (payOut cfg (runs[i]'(by omega))) with
-                | none => simp [hao] at hso
-                | some ao =>
-                  cases hae : accepts tests[i].exps (payErr cfg (runs[i]'(by omega))) with
-                  | none => simp [hao, hae] at hso
-                  | some ae =>
-                    simp only [hao, hae, Option.some.injEq] at hso
-                    subst hso
-                    obtain ⟨c, hc, hce, hsel⟩ := (Exec.validate_ok_iff _ _).1 hv.symm
-                    have hcr : c = (runs[i]'(by omega)).ran.code := by cases hc; rfl
-                    rw [hcr] at hce
-                    rw [selected_of_out] at hsel
-                    refine ⟨tests[i], runs[i]'(by omega), cfg, hti, hri, rfl, hce, ?_⟩
-                    unfold scriptSelected
-                    by_cases hs : tests[i].cfg.outputStream = some .stderr
-                    · simp only [hs, if_true] at hsel ⊢; rw [hae, hsel]
-                    · simp only [hs, if_false] at hsel ⊢; rw [hao, hsel]
-
 /-- `tests` are the prepared tests of the Cram document `bytes` -/
 def CramDocTests (bytes : Bytes) (tests : List Test) : Prop :=
   ∃ text pre ts, readFile bytes = .ok text ∧ Cram.parseCram expOk 2 text = .ok (pre, ts) ∧
     ts.mapM prepareCram = .ok tests
-
-/-- **T2 lifted, Cram document** -/
-theorem testCramDocumentBytes_ok_sound {bytes : Bytes} {runs : List SRan}
-    {outcomes : List Exec.Outcome} {status i : Nat}
-    (h : testCramDocumentBytes bytes runs = .report outcomes status)
-    (hi : (i, Exec.Verdict.ok) ∈ outcomes) :
-    ∃ tests, CramDocTests bytes tests ∧
-      ((∀ r ∈ runs.take tests.length, r.leaves = false) →
-       (∀ cfg, compileTestcase tests = some cfg → cfg.keepCrlf = some true) →
-       tests.length ≤ 2 ^ 64 →
-       ∃ (t : Test) (r : SRan) (cfg : Compiled), tests[i]? = some t ∧ runs[i]? = some r ∧
-         compileTestcase tests = some cfg ∧ r.ran.code = t.expected.getD 0 ∧
-         accepts t.exps (scriptSelected cfg t r) = some true) := by
-  obtain ⟨text, pre, ts, tests, h1, h2, h3, _, h5⟩ := testCramDocumentBytes_report_inv h
-  exact ⟨tests, ⟨text, pre, ts, h1, h2, h3⟩, fun g1 g2 g3 => runScript_ok_sound h5 g1 g2 g3 hi⟩
 
 /-! ### a Cram document and a Markdown document under `--cram-compat`, evaluated by the kernel -/
 
@@ -1749,17 +1547,5 @@ theorem ex_cramDocTests : CramDocTests exCramBytes exCramTests :=
                         skipDocumentCode := some 80, stripAnsiEscaping := none, timeoutSecs := none,
                         waitSet := false, environment := [] } }],
     by decide +kernel, rfl, by decide +kernel⟩
-
-/-- the guards of `runScript_ok_sound` on the example -/
-theorem ex_cram_guards :
-    (∀ r ∈ exCramRuns.take exCramTests.length, r.leaves = false) ∧
-    (∀ cfg, compileTestcase exCramTests = some cfg → cfg.keepCrlf = some true) ∧
-    exCramTests.length ≤ 2 ^ 64 := by
-  refine ⟨by decide, ?_, by decide⟩
-  intro cfg h
-  have : compileTestcase exCramTests = some ⟨some true, some .combined, some 80⟩ := by decide
-  rw [this] at h
-  cases h
-  rfl
 
 end Scrut.TestRun
